@@ -301,10 +301,11 @@ Print Assumptions C20_class_leaf_closed_partial.
 
 (* The category hypothesis cannot be dropped: the statement without syn_cats_resp is refuted on the faithful
    model by a category whose table is not closed under case and whose NAME is not one of "Ll" "Lu" "Lt".
-   Real instances: (1) the long aliases Uppercase_Letter / Lowercase_Letter / Titlecase_Letter, which the
-   engine files under their own names (ids >= 16 in the model) and therefore does not widen under IgnoreCase:
-   (?i)\p{Uppercase_Letter} matches "A" but not "a" although (?i)\p{Lu} matches both - a genuine defect,
-   reported with a one-line patch (addCategory compares the spelling instead of the table);
+   Real instances: (1) until repair 858f498 the long aliases Uppercase_Letter / Lowercase_Letter /
+   Titlecase_Letter, which the engine filed under their own names and therefore did not widen under IgnoreCase:
+   (?i)\p{Uppercase_Letter} matched "A" but not "a" although (?i)\p{Lu} matches both (addCategory compared the
+   spelling instead of the table; found by this proof attempt, now in the regression corpus of leg c20-closed;
+   the harness gives the three aliases the cased-letter ids 2/3/4);
    (2) by design: scripts and derived properties ((?i)\p{Greek} matches U+03BC but not the micro sign U+00B5 of
    the same fold orbit). *)
 Definition C20_class_leaf_closed_full : Prop :=
